@@ -822,11 +822,16 @@ def cookie_order_checks(ctx, model, falcon, n):
         ctx.count('cookie-order-oracle-' + ('asgi' if hists[hi][1] else 'wsgi'))
         if not ok:
             sd, asgi, ops = hists[hi]
-            ctx.violation('cookie-emission-order',
-                          {'what': 'after a successful %s(%r) the Set-Cookie block of the emitted list is not in the order the '
-                                   'API implies (re-set cookie last / unset cookie in place)' % (kind, nm),
+            # the order of Set-Cookie lines is not a clause of the property: a deviation is a break of the
+            # model correspondence (C15_set_cookie_order / C15_unset_cookie_order / C15_emitted_cookie_order)
+            ctx.violation('correspondence-broken',
+                          {'broken': 'C15.cookie_emission_order (C15_set_cookie_order / C15_unset_cookie_order / '
+                                     'C15_emitted_cookie_order)',
+                           'what': 'after a successful %s(%r) the Set-Cookie block of the emitted list is not in the order the '
+                                   'model proves (re-set cookie last / unset cookie in place)' % (kind, nm),
                            'interface': 'asgi' if asgi else 'wsgi', 'names_before': before, 'names_after': after,
-                           'history': hist_json(sd, asgi, ops[:i + 1]), 'op_index': i}, key='cookie-order-' + kind)
+                           'history': hist_json(sd, asgi, ops[:i + 1]), 'op_index': i}, found_input=False,
+                          key='cookie-order-' + kind)
 
 
 def run_histories_plain(ctx, model, falcon, hists, fixed=True):
